@@ -1,9 +1,10 @@
 // ---- shim: octets 0.3.7 `Octets` / `OctetsMut` cursors and varint codec (trusted; read off the crate's source) ----------
-// Model: a cursor is (buf: Seq<u8>, off).  Every get_*/put_* either fails with BufferTooShortError leaving the cursor
-// where it was, or consumes/produces exactly the encoded width.  The QUIC varint codec is uninterpreted
-// (`varint_enc` / `varint_dec`) with three assumed facts: length = varint_len, decode(encode(v) ++ tail) = (v, len),
-// and a successful decode yields a value < 2^62 and a width in {1,2,4,8} not beyond the input.  `put_varint(v)` panics for
-// v >= 2^62 in octets (kept as a precondition).
+// Model: a read cursor is its unread remainder `rest()` (plus the total length of its buffer, which `len()`/`is_empty()`
+// report); a write cursor is the bytes written so far `out()` and the remaining capacity.  Every get_*/put_* either fails with
+// BufferTooShortError leaving the cursor where it was, or consumes/produces exactly the encoded width.  The QUIC varint codec
+// is uninterpreted (`varint_enc` / `varint_dec`) with three assumed facts: length = varint_len, decode(encode(v) ++ tail) =
+// (v, len), and a successful decode yields a value < 2^62 and a width 1..8 within the input.  `put_varint(v)` panics for
+// v >= 2^62 in octets (kept as a precondition).  put_* return `Result<&mut [u8]>` in octets; the code only uses `?;` on them.
 pub mod octets {
     use vstd::prelude::*;
 
@@ -42,77 +43,73 @@ pub mod octets {
     {}
 
     pub open spec fn be16(hi: u8, lo: u8) -> u16 { (hi as u16 * 256 + lo as u16) as u16 }
+    pub open spec fn u16_be(v: u16) -> Seq<u8> { seq![(v / 256) as u8, (v % 256) as u8] }
 
     // ---- read cursor ----
     #[verifier::external_body]
     pub struct Octets<'a> { buf: &'a [u8], off: usize }
 
     impl<'a> Octets<'a> {
-        pub uninterp spec fn buf(&self) -> Seq<u8>;
-        pub uninterp spec fn off(&self) -> nat;
-        pub open spec fn inv(&self) -> bool { self.off() <= self.buf().len() }
-        pub open spec fn rest(&self) -> Seq<u8> { self.buf().skip(self.off() as int) }
+        /// the bytes not consumed yet
+        pub uninterp spec fn rest(&self) -> Seq<u8>;
+        /// total length of the underlying buffer (what `len()` and `is_empty()` look at)
+        pub uninterp spec fn total(&self) -> nat;
 
         #[verifier::external_body]
         pub fn with_slice(b: &'a [u8]) -> (r: Octets<'a>)
-            ensures r.buf() == b@, r.off() == 0, r.inv(),
+            ensures r.rest() == b@, r.total() == b@.len(),
         { unimplemented!() }
 
         #[verifier::external_body]
         pub fn get_u8(&mut self) -> (r: Result<u8, BufferTooShortError>)
-            requires old(self).inv(),
-            ensures final(self).inv(), final(self).buf() == old(self).buf(),
+            ensures final(self).total() == old(self).total(),
                 r is Ok <==> old(self).rest().len() >= 1,
-                r matches Ok(v) ==> v == old(self).rest()[0] && final(self).off() == old(self).off() + 1,
-                r is Err ==> final(self).off() == old(self).off(),
+                r matches Ok(v) ==> v == old(self).rest()[0] && final(self).rest() == old(self).rest().skip(1),
+                r is Err ==> final(self).rest() == old(self).rest(),
         { unimplemented!() }
 
         #[verifier::external_body]
         pub fn get_u16(&mut self) -> (r: Result<u16, BufferTooShortError>)
-            requires old(self).inv(),
-            ensures final(self).inv(), final(self).buf() == old(self).buf(),
+            ensures final(self).total() == old(self).total(),
                 r is Ok <==> old(self).rest().len() >= 2,
-                r matches Ok(v) ==> v == be16(old(self).rest()[0], old(self).rest()[1]) && final(self).off() == old(self).off() + 2,
-                r is Err ==> final(self).off() == old(self).off(),
+                r matches Ok(v) ==> v == be16(old(self).rest()[0], old(self).rest()[1]) && final(self).rest() == old(self).rest().skip(2),
+                r is Err ==> final(self).rest() == old(self).rest(),
         { unimplemented!() }
 
         #[verifier::external_body]
         pub fn get_varint(&mut self) -> (r: Result<u64, BufferTooShortError>)
-            requires old(self).inv(),
-            ensures final(self).inv(), final(self).buf() == old(self).buf(),
+            ensures final(self).total() == old(self).total(),
                 r is Ok <==> varint_dec(old(self).rest()) is Some,
-                r matches Ok(v) ==> varint_dec(old(self).rest()) == Some((v, (final(self).off() - old(self).off()) as nat))
-                    && v < 0x4000_0000_0000_0000 && final(self).off() > old(self).off(),
-                r is Err ==> final(self).off() == old(self).off(),
+                r matches Ok(v) ==> (varint_dec(old(self).rest()) matches Some((v2, n)) && v2 == v && v < 0x4000_0000_0000_0000
+                    && 1 <= n <= old(self).rest().len() && final(self).rest() == old(self).rest().skip(n as int)),
+                r is Err ==> final(self).rest() == old(self).rest(),
         { unimplemented!() }
 
         #[verifier::external_body]
         pub fn get_bytes_with_varint_length(&mut self) -> (r: Result<Octets<'a>, BufferTooShortError>)
-            requires old(self).inv(),
-            ensures final(self).inv(), final(self).buf() == old(self).buf(), final(self).off() >= old(self).off(),
+            ensures final(self).total() == old(self).total(),
                 r is Ok <==> (varint_dec(old(self).rest()) matches Some((len, n)) && n + len <= old(self).rest().len()),
                 r matches Ok(sub) ==> (varint_dec(old(self).rest()) matches Some((len, n)) && {
-                    &&& sub.inv() && sub.off() == 0
-                    &&& sub.buf() == old(self).rest().subrange(n as int, n + len)
-                    &&& final(self).off() == old(self).off() + n + len
+                    &&& sub.rest() == old(self).rest().subrange(n as int, n + len)
+                    &&& sub.total() == len
+                    &&& final(self).rest() == old(self).rest().skip(n + len)
                 }),
         { unimplemented!() }
 
         #[verifier::external_body]
         pub fn to_vec(&self) -> (v: Vec<u8>)
-            requires self.inv(),
             ensures v@ == self.rest(),
         { unimplemented!() }
 
         /// octets: `self.buf.len() == 0` (the whole buffer, not the remainder)
         #[verifier::external_body]
         pub fn is_empty(&self) -> (b: bool)
-            ensures b == (self.buf().len() == 0),
+            ensures b == (self.total() == 0),
         { unimplemented!() }
 
         #[verifier::external_body]
         pub fn len(&self) -> (n: usize)
-            ensures n == self.buf().len(),
+            ensures n == self.total(),
         { unimplemented!() }
     }
 
@@ -121,55 +118,50 @@ pub mod octets {
     pub struct OctetsMut<'a> { buf: &'a mut [u8], off: usize }
 
     impl<'a> OctetsMut<'a> {
-        pub uninterp spec fn buf(&self) -> Seq<u8>;
-        pub uninterp spec fn off(&self) -> nat;
-        pub open spec fn inv(&self) -> bool { self.off() <= self.buf().len() }
-        pub open spec fn cap_spec(&self) -> nat { (self.buf().len() - self.off()) as nat }
+        /// the bytes written before the cursor
+        pub uninterp spec fn out(&self) -> Seq<u8>;
+        /// remaining capacity
+        pub uninterp spec fn cap_spec(&self) -> nat;
         /// effect of writing `w` at the cursor
         pub open spec fn wrote(pre: &OctetsMut, post: &OctetsMut, w: Seq<u8>) -> bool {
-            &&& post.inv()
-            &&& post.off() == pre.off() + w.len()
-            &&& post.buf().len() == pre.buf().len()
-            &&& post.buf().subrange(0, pre.off() as int) == pre.buf().subrange(0, pre.off() as int)
-            &&& post.buf().subrange(pre.off() as int, post.off() as int) == w
+            post.out() == pre.out() + w && post.cap_spec() + w.len() == pre.cap_spec()
+        }
+        pub open spec fn same(pre: &OctetsMut, post: &OctetsMut) -> bool {
+            post.out() == pre.out() && post.cap_spec() == pre.cap_spec()
         }
 
         #[verifier::external_body]
         pub fn cap(&self) -> (n: usize)
-            requires self.inv(),
             ensures n == self.cap_spec(),
         { unimplemented!() }
 
         #[verifier::external_body]
         pub fn put_u8(&mut self, v: u8) -> (r: Result<(), BufferTooShortError>)
-            requires old(self).inv(),
             ensures r is Ok <==> old(self).cap_spec() >= 1,
                 r is Ok ==> Self::wrote(old(self), final(self), seq![v]),
-                r is Err ==> final(self).inv() && final(self).off() == old(self).off() && final(self).buf() == old(self).buf(),
+                r is Err ==> Self::same(old(self), final(self)),
         { unimplemented!() }
 
         #[verifier::external_body]
         pub fn put_u16(&mut self, v: u16) -> (r: Result<(), BufferTooShortError>)
-            requires old(self).inv(),
             ensures r is Ok <==> old(self).cap_spec() >= 2,
-                r is Ok ==> Self::wrote(old(self), final(self), seq![(v / 256) as u8, (v % 256) as u8]),
-                r is Err ==> final(self).inv() && final(self).off() == old(self).off() && final(self).buf() == old(self).buf(),
+                r is Ok ==> Self::wrote(old(self), final(self), u16_be(v)),
+                r is Err ==> Self::same(old(self), final(self)),
         { unimplemented!() }
 
         #[verifier::external_body]
         pub fn put_varint(&mut self, v: u64) -> (r: Result<(), BufferTooShortError>)
-            requires old(self).inv(), v < 0x4000_0000_0000_0000,     // octets panics ("value is too large for varint") otherwise
+            requires v < 0x4000_0000_0000_0000,     // octets panics ("value is too large for varint") otherwise
             ensures r is Ok <==> old(self).cap_spec() >= varint_len_spec(v),
                 r is Ok ==> Self::wrote(old(self), final(self), varint_enc(v)),
-                r is Err ==> final(self).inv() && final(self).off() == old(self).off() && final(self).buf() == old(self).buf(),
+                r is Err ==> Self::same(old(self), final(self)),
         { unimplemented!() }
 
         #[verifier::external_body]
         pub fn put_bytes(&mut self, v: &[u8]) -> (r: Result<(), BufferTooShortError>)
-            requires old(self).inv(),
             ensures r is Ok <==> old(self).cap_spec() >= v@.len(),
                 r is Ok ==> Self::wrote(old(self), final(self), v@),
-                r is Err ==> final(self).inv() && final(self).off() == old(self).off() && final(self).buf() == old(self).buf(),
+                r is Err ==> Self::same(old(self), final(self)),
         { unimplemented!() }
     }
 }
